@@ -367,15 +367,6 @@ impl V {
                 }
             }
         }
-        for x in &bound {
-            if let Some(old) = env.lookup(x) {
-                // what remains of F40 until notes/C02-fixes/21 lands: the matched value may have been reached
-                // THROUGH the variable being rebound (`b = "hi" =b b.0`) — approximated by "was read before"
-                if old.used.get() {
-                    return Err(format!("rebinding of {x}, which was read (open finding: a pattern rebinding the variable its value came through)"));
-                }
-            }
-        }
         if non_type_alt_inside_partial(pat, false) {
             return Err("alternation of non-types inside a partial pattern (does not parse: a partial pattern's field takes a type union)".into());
         }
